@@ -93,7 +93,7 @@ pub fn run(kind: &str, ctx: &Ctx, out: &mut dyn Write) {
             Err(e) => writeln!(s, "impl panic {}", e).unwrap(),
             Ok(mut d) => {
                 s.push_str(&dump_circuit(&d));
-                hook::reset_enumeration_cache();
+                crate::common::reset_cursor();
                 let n = inp.n;
                 // a few assumption lists per model
                 let mut lists: Vec<Vec<i32>> = vec![vec![]];
